@@ -1,1 +1,60 @@
-(* C05 *)
+(* C05 - an @expression ends exactly where the documentation says.  Theorems only. *)
+From Coq Require Import Lia.
+From Ructe Require Import Nom NomFacts Utf8 Spacelike Expression TemplateExpr Template Emit Compile
+                          ParserProofs SpaceProofs TextProofs ExprProofs EmitProofs.
+Local Open Scope list_scope.
+
+(* on EVERY input: the fragment taken is a non-empty, valid UTF-8 prefix of the input, and it is
+   maximal -- where it ends no further postfix form (.member, ::path, (..), {..}, [..], !(..),
+   ![..]) parses, so everything after that point is literal text *)
+Theorem expression_sound_and_maximal : forall n i e r,
+  expression (expr_gram (S n)) i = Ok e r ->
+  i = e ++ r /\ e <> [] /\ utf8_valid e = true /\ exists err, postfix_alt (expr_gram n) r = Err err.
+Proof. exact expression_spec. Qed.
+
+Section C05.
+  Variable E : nt -> parser bytes.
+  Variable ln n : nat.
+  Notation TEp := (texpr_gram E ln (S n) TE).
+
+  (* `@( .. )` ends at the parenthesis that closes the group scanned by expr_inside_parens, and
+     the fragment handed to rustc is the parenthesised text *)
+  Theorem paren_expression : forall i e r,
+    expr_inside_parens E i = Ok e (41%N :: r) ->
+    TEp (b "@(" ++ i) = Ok (TExpr (b "(" ++ e ++ b ")")) r.
+  Proof. intros i e r H. rewrite (paren_form_lemma E ln n). now apply paren_branch_spec. Qed.
+End C05.
+
+(* inside a group a '/' that does not start a block comment consumes exactly one byte, so an
+   opening delimiter or a quote right after a division is scanned normally *)
+Theorem division_is_transparent : forall c r, N.eqb c 42 = false -> slash_now (47%N :: c :: r) = Ok tt (c :: r).
+Proof. exact slash_now_spec. Qed.
+
+(* the fragment reaches rustc unmodified, exactly once *)
+Theorem fragment_verbatim_once : forall (ue : N -> bool) (e : bytes),
+  write_code ue (TExpr e) = e ++ b ".to_html(_ructe_out_.by_ref())?;" ++ nl.
+Proof. intros. reflexivity. Qed.
+
+(* the scanner of the pinned commit swallowed the byte after the slash *)
+Lemma legacy_division_refuted : slash_legacy (b "/(y)") = Ok tt (b "y)") /\ slash_now (b "/(y)") = Ok tt (b "(y)").
+Proof. exact slash_legacy_swallows. Qed.
+
+(* the shapes the documentation names, and the repaired division witnesses, through the whole pipeline *)
+Definition body_of (src : bytes) : option (list texpr) :=
+  match parse_template src with Ok t [] => Some (body t) | _ => None end.
+Example doc_examples :
+  body_of (b "@()@a.@a") = Some [TExpr (b "a"); TText (b "."); TExpr (b "a")] /\
+  body_of (b "@()@a.") = Some [TExpr (b "a"); TText (b ".")] /\
+  body_of (b "@()@(a).len()") = Some [TExpr (b "(a)"); TText (b ".len()")] /\
+  body_of (b "@()@a.len()") = Some [TExpr (b "a.len()")] /\
+  body_of (b "@()@foo(x/(y))") = Some [TExpr (b "foo(x/(y))")] /\
+  body_of (b "@()@(x/""s"".len())") = Some [TExpr (b "(x/""s"".len())")] /\
+  body_of (b "@()@a.b::c(d[e{f}])![g]<i>") = Some [TExpr (b "a.b::c(d[e{f}])![g]"); TText (b "<i>")] /\
+  body_of (b "@()@f("")}]"" /* ) */)x") = Some [TExpr (b "f("")}]"" /* ) */)"); TText (b "x")].
+Proof. vm_compute. repeat split; reflexivity. Qed.
+
+Redirect "assumptions/C05.expression_sound_and_maximal" Print Assumptions expression_sound_and_maximal.
+Redirect "assumptions/C05.paren_expression" Print Assumptions paren_expression.
+Redirect "assumptions/C05.division_is_transparent" Print Assumptions division_is_transparent.
+Redirect "assumptions/C05.fragment_verbatim_once" Print Assumptions fragment_verbatim_once.
+Redirect "assumptions/C05.legacy_division_refuted" Print Assumptions legacy_division_refuted.
